@@ -18,6 +18,8 @@ import (
 	"time"
 
 	"pgregory.net/rapid"
+
+	vsync "github.com/ohler55/ojg/verifsync"
 )
 
 // Failure is one oracle disagreement found in one simulated run.
@@ -172,6 +174,7 @@ func Main(t *testing.T, prop string, body func(cx *Ctx)) {
 	}()
 	rapid.Check(t, func(rt *rapid.T) {
 		cx := &Ctx{T: rt, Prop: prop}
+		vsync.SetGoidFn(goid) // (this goroutine drives the case; goroutines the library starts by itself are told apart from it)
 		rs.inCase.Store(true)
 		rs.baselineOK.Store(false)
 		rs.progress.Add(1)
